@@ -138,7 +138,33 @@ def run(ctx, out, tier):
                     labs = ctx.prov.read_place(b, s["lhs"])
                     out.viol("C20.lastwins", "C20.lastwins|%s|%s" % (b.id, loc["name"]), ctx.where(b, s["span"]),
                              "variable `%s` is declared outside a loop over an unordered source and overwritten inside it with a loop-dependent value: the last writer depends on the iteration order" % loc["name"])
-    out.inst("C20.first", n_loops, 15, samples, note="loops over hash-based iteration / join_next examined (exits, keyed inserts, overwritten outer variables)")
+            # (3) a container that one iteration writes and another reads: whether the reader sees the write
+            # depends on which of the two came first
+            if kind == "hash":
+                WR = r"(HashMap::<K, V, S, A>|BTreeMap::<K, V, A>)::(insert|remove|entry|retain|clear)$|(HashSet::<T, S, A>|BTreeSet::<T, A>)::(insert|remove|retain|clear)$"
+                RD = r"(HashMap::<K, V, S, A>|BTreeMap::<K, V, A>)::(get|get_mut|contains_key|get_key_value)$|(HashSet::<T, S, A>|BTreeSet::<T, A>)::(contains|get)$|ops::Index<.*>>?::index$"
+                dl = t["dest"]["l"]
+                loopkey = {l for l in ctx.prov.read_local(b, dl, ("0", "0")) if l[0] != "const"}
+                written = {}
+                for x in sorted(region):
+                    tt = b.blocks[x]["term"]
+                    if tt and tt["k"] == "call" and tt["args"] and callee_matches(tt, WR):
+                        written.setdefault(util.base_path(b, tt["args"][0]), tt)
+                for x in sorted(region):
+                    tt = b.blocks[x]["term"]
+                    if not (tt and tt["k"] == "call" and len(tt["args"]) > 1 and callee_matches(tt, RD)):
+                        continue
+                    if not re.search(r"Hash(Map|Set)<|BTree(Map|Set)<", (tt.get("arg_tys") or [""])[0]):
+                        continue
+                    base = util.base_path(b, tt["args"][0])
+                    if base not in written or base[0] is None:
+                        continue
+                    kln = {l for l in ctx.prov.read_operand(b, tt["args"][1]) if l[0] != "const"}
+                    if kln and kln <= loopkey:
+                        continue        # the iteration's own entry
+                    out.viol("C20.lastwins", "C20.lastwins|%s|read-after-write" % b.id, ctx.where(b, tt["span"]),
+                             "inside a loop over a hash map, a map that the loop also writes (`%s`) is read with a key that is not the iteration's own: whether the entry written by another iteration is already there depends on the iteration order (the per-process hash seed)" % callee_name(written[base]).split("::")[-1])
+    out.inst("C20.first", n_loops, 15, samples, note="loops over hash-based iteration / join_next examined (exits, keyed inserts, overwritten outer variables, reads of what other iterations write)")
 
     # ------------------------------------------------------------------ selection on unordered chains
     n_sel = 0
